@@ -2,7 +2,7 @@
 import ast
 
 from vstat.loader import AnalysisError
-from vstat.terms import degrade, top_alts, CMP, IT, guarded_alts, builder, show, SELF, NONE, G, alts, walk, mentions, phi, galts
+from vstat.terms import children, degrade, top_alts, CMP, IT, guarded_alts, builder, show, SELF, NONE, G, alts, walk, mentions, phi, galts
 from vstat.guards import path_conditions
 from vstat.cfg import cfg_of
 from vstat.sigs import bind
@@ -16,6 +16,9 @@ EXPL = ("C17.swap: (x_idx, y_idx) = (1, 0) iff swap_axis else (0, 1); the abscis
         "ordinates), abscissae without intersection are skipped, result = columns (abscissae, ordinates); C17.default: default abscissae are a "
         "linspace between min and max of the abscissa series inset by a spacer, num = 10 or the integer given, an iterable is used as is; "
         "C17.inrange: intersection keeps a candidate iff both segment parameters lie in [0, 1] (four comparisons) and returns the solved x, y; "
+        "C17.candidates: the segment pairs handed to the linear solve are ALL pairs whose bounding boxes overlap - one nonzero() of the "
+        "conjunction of four non-strict comparisons min(seg_i of curve 1) <= max(seg_j of curve 2), max(seg_i) >= min(seg_j), for x and for y, "
+        "over consecutive end points; no exit that returns fewer candidates on a condition about the data; "
         "C17.all: nothing between the intersection call and the max bounds the number of intersections (no assert / raise on their count).")
 ASSUME = ["geometric correctness of the 4x4 linear solve for all polyline pairs is not decided"]
 
@@ -25,6 +28,8 @@ def run(prog, rep):
     rep.assumptions = ASSUME
     rep.part(design, prog, rep)
     rep.part(inter, prog, rep)
+    rep.part(candidates, prog, rep)
+    rep.expect_min("C17.candidates", 3)
     rep.expect_min("C17.swap", 2)
     rep.expect_min("C17.probe", 2)
     rep.expect_min("C17.result", 3)
@@ -33,6 +38,12 @@ def run(prog, rep):
     rep.expect_min("C17.all", 1)
     from .purity import row as _stateless_row
     rep.part(_stateless_row, prog, rep, "C17", 2)
+    # "swap_axis is equivalent to exchanging the two coordinates": the package's own caller (plot_2D_contour) must ask for the design
+    # conditions of the exchanged contour exactly when it draws the exchanged contour - the design-condition rows of C20.contour
+    from vstat.report import Relabel
+    from . import c20
+    rep.part(c20.contour, prog, Relabel(rep, "C17.caller", lambda r, inst: r == "C20.contour" and "design" in inst))
+    rep.expect_min("C17.caller", 1)
 
 def design(prog, rep):
     q = "virocon.utils.calculate_design_conditions"
@@ -277,3 +288,133 @@ def inter(prog, rep):
         okm = got == {(">=", 0, 0), (">=", 1, 0), ("<=", 0, 1), ("<=", 1, 1)} and len(parts) == 4 and all(mentions(c, T) for c in parts)
         why = f"a candidate is a crossing iff BOTH segment parameters lie in [0, 1]: t0 >= 0, t1 >= 0, t0 <= 1, t1 <= 1 (inclusive); found {sorted(map(str, got))}"
     rep.check(okm, "C17.inrange", f"{q}:range", fn.where(), "0 <= t0 <= 1 and 0 <= t1 <= 1", why)
+
+
+# --------------------------------------------------------------- candidates
+def _conjuncts(m, out):
+    if m[0] == "bin" and m[1] == "&":
+        _conjuncts(m[2], out); _conjuncts(m[3], out)
+    elif m[0] == "call" and m[1] == G("numpy.logical_and") and len(m[2]) == 2:
+        _conjuncts(m[2][0], out); _conjuncts(m[2][1], out)
+    elif m[0] == "and":
+        for x in m[1]:
+            _conjuncts(x, out)
+    else:
+        out.append(m)
+
+
+def _series_sig(t):
+    """(parameter, reduction) of one side of a bounding-box comparison: which of x1/y1/x2/y2 it is computed from and whether
+    it is a minimum or a maximum over the two end points of a segment; None if it is not of that kind."""
+    from vstat.terms import ordered
+    def data_params(x, out):
+        # parameters the VALUES come from: a curve mentioned only through its length (tile repetitions) does not count
+        if x[0] == "param":
+            out.add(x[1])
+            return
+        if (x[0] == "attr" and x[2] in ("shape", "size", "ndim")) or (x[0] == "call" and x[1] == G("len")):
+            return
+        for y in children(x):
+            data_params(y, out)
+    pars = set()
+    data_params(t, pars)
+    red = set()
+    for w in walk(t):
+        if w[0] == "call" and w[1] in (G("numpy.min"), G("numpy.minimum"), G("numpy.amin"), G("min")):
+            red.add("min")
+        if w[0] == "call" and w[1] in (G("numpy.max"), G("numpy.maximum"), G("numpy.amax"), G("max")):
+            red.add("max")
+    ends = {w[2] for w in walk(t) if w[0] == "sub" and w[2][0] == "slice"}
+    both = ("slice", NONE, ("const", -1), NONE) in ends and ("slice", ("const", 1), NONE, NONE) in ends
+    if len(pars & {"x1", "y1", "x2", "y2"}) == 1 and len(red) == 1 and both:
+        return (next(iter(pars & {"x1", "y1", "x2", "y2"})), next(iter(red)))
+    return None
+
+
+def candidates(prog, rep):
+    from vstat.terms import ordered
+    q = "virocon._intersection.intersection"
+    fn = prog.func(q)
+    b = builder(prog, fn, inline=True)
+    cfg = cfg_of(fn)
+    # everything the result depends on: the returned crossing points are rows of the solved system, whose size and
+    # right-hand side are indexed by the candidate pairs
+    rets = [s_ for s_ in cfg.all_stmts() if isinstance(s_, ast.Return) and s_.value is not None]
+    st = rets[-1]
+    roots = [b.term(r_.value, r_) for r_ in rets]
+    for s_ in cfg.all_stmts():
+        if isinstance(s_, ast.Assign):
+            roots.append(b.term(s_.value, s_))
+    is_nz = lambda x: x[0] == "call" and x[1] == G("numpy.nonzero")
+    main, other = set(), set()
+
+    def scan(x):
+        if is_nz(x):
+            main.add(x)
+            return
+        if x[0] in ("phi", "gphi", "ifexp") and any(is_nz(w) for w in walk(x)):
+            # a choice between candidate sets: fine only if every alternative is the same np.nonzero(...) element
+            al_ = {a for _l, a in top_alts(x)}
+            if all(a[0] == "sub" and is_nz(a[1]) for a in al_) or all(is_nz(a) for a in al_):
+                for a in al_:
+                    scan(a)
+            else:
+                other.add(x)
+            return
+        for y in children(x):
+            scan(y)
+    for r_ in roots:
+        scan(r_)
+    if not main and not other:
+        raise AnalysisError(f"{q}: the candidate index pair (np.nonzero of an overlap mask) was not found")
+    main = sorted(main, key=repr)
+    rep.check(len(main) == 1 and not other, "C17.candidates", f"{q}:all-pairs", fn.where(st),
+              "the candidate pairs are the index arrays of one np.nonzero(mask), on every path",
+              "the candidate segment pairs must be the index arrays of ONE np.nonzero(overlap mask) on every path; found "
+              f"{len(main)} masks and a choice that depends on the data: {[show(a)[:110] for a in sorted(other, key=repr)][:2]}")
+    main = [((), m_) for m_ in main]
+    if not main:
+        return
+    m = main[0][1][2][0]
+    cj = []
+    _conjuncts(m, cj)
+    got = set()
+    bad = []
+    for c in cj:
+        o = ordered(c) if c[0] == "cmp" else None
+        if o is None:
+            bad.append(f"not an order comparison: {show(c)[:80]}")
+            continue
+        lo, hi, strict = o
+        sl, sh = _series_sig(lo), _series_sig(hi)
+        if strict:
+            bad.append(f"strict comparison (touching boxes are lost): {show(c)[:80]}")
+        if sl is None or sh is None:
+            bad.append(f"side not a min/max over the two end points of the segments of one curve: {show(c)[:80]}")
+            continue
+        got.add((sl, sh))
+    want = {(("x1", "min"), ("x2", "max")), (("x2", "min"), ("x1", "max")), (("y1", "min"), ("y2", "max")), (("y2", "min"), ("y1", "max"))}
+    rep.check(not bad and got == want and len(cj) == 4, "C17.candidates", f"{q}:overlap", fn.where(st),
+              "mask = [min1 <= max2] & [max1 >= min2] in x and in y (non-strict)",
+              "a pair of segments is a candidate iff their bounding boxes overlap in x AND in y (four non-strict comparisons of segment minima and maxima); "
+              + ("; ".join(bad) if bad else f"found the comparisons {sorted(got)} ({len(cj)} conjuncts)"))
+    # orientation: rows of the mask are the segments of curve 1 (ii indexes x1 / y1), columns those of curve 2
+    verdict = None
+    for c in cj:
+        o = ordered(c) if c[0] == "cmp" else None
+        if o is None:
+            continue
+        for side in o[:2]:
+            sg = _series_sig(side)
+            if sg is None:
+                continue
+            transposed = side[0] == "attr" and side[2] == "T"
+            tiled = side[1] if transposed else side
+            if tiled[0] == "call" and tiled[1] == G("numpy.tile"):
+                v = transposed == (sg[0] in ("x1", "y1"))
+                verdict = v if verdict is None else (verdict and v)
+    if verdict is None:
+        rep.ok("C17.candidates", f"{q}:orientation", fn.where(st), "broadcast form not one this rule reads: which axis is which curve is not decided here", nontrivial=False)
+    else:
+        rep.check(verdict, "C17.candidates", f"{q}:orientation", fn.where(st), "rows = segments of curve 1, columns = segments of curve 2",
+                  "the first index array must number the segments of the first curve (its extremes are the transposed tiles), the second those of the second curve")
